@@ -117,12 +117,29 @@ def addDecision (want4 want6 aaErr got4 got6 : Bool) : AddRes :=
       rel6 := short4 && want6 && got6,
       rel4 := short6 && want4 && got4 }
 
+/-- Events a SUCCESSFUL `cmdAdd` for handle `h` may consist of: anything but a release
+(claims, affinity writes, handle increments / decrements, allocations for `h`, deletes of
+EMPTY blocks by `releaseBlockAffinity`). -/
+def addEv (h : Nat) : Ev → Bool
+  | .call c =>
+    match c.pl with
+    | .blkRmw _ (.assign h0 _ _) _ => h0 == h
+    | .blkRmw _ (.assignIP h0 _) _ => h0 == h
+    | .blkRmw _ .clearAff _ => true
+    | .blkRmw _ .bump _ => true
+    | .blkRmw _ _ _ => false
+    | .blkDelete _ (some _) _ => false
+    | _ => true
+  | _ => true
+
 /-! ### driver -/
 
 structure DSt where
   cas : St
   snap : St            -- state when the running CNI command began
   imm : Bool
+  addH : Nat := 0      -- handle of the running ADD
+  nonrel : Bool := true -- every event of the running ADD so far satisfies `addEv addH`
 
 def parseBools (s : String) : List Bool := s.toList.filterMap (fun c => if c == '1' then some true else if c == '0' then some false else none)
 
@@ -137,9 +154,16 @@ def stepLine (d : DSt) (line : String) : DSt × String :=
   | "new" :: rest =>
     let (c, o) := driverStep C19.chk d.cas line
     ({ cas := c, snap := c, imm := kvOf rest "cool" == some "0" }, o)
-  | "begin" :: _ =>
+  | "begin" :: _ :: op :: rest =>
     let (c, o) := driverStep C19.chk d.cas line
-    ({ d with cas := c, snap := c }, o)
+    let hA := if op == "cniadd" then (match kvNat rest "c" with | some k => 3 * k + 1 | none => 0) else 0
+    ({ d with cas := c, snap := c, addH := hA, nonrel := true }, o)
+  | "step" :: _ =>
+    let (c, o) := driverStep C19.chk d.cas line
+    let nr := match parseStep ws with
+      | some cl => addEv d.addH (.call cl)
+      | none => false
+    ({ d with cas := c, nonrel := d.nonrel && nr }, o)
   -- cni <tid> del <status> h1=<h> h2=<h> o1=<ords> o2=<ords> f=<fault flags>
   | "cni" :: t :: "del" :: status :: rest =>
     match t.toNat?, kvNat rest "h1", kvNat rest "h2", kvNats rest "o1", kvNats rest "o2", kvOf rest "f" with
@@ -155,7 +179,9 @@ def stepLine (d : DSt) (line : String) : DSt × String :=
     match kvOf rest "w4", kvOf rest "w6", kvOf rest "aaerr", kvOf rest "g4", kvOf rest "g6" with
     | some w4, some w6, some e, some g4, some g6 =>
       let r := addDecision (w4 == "1") (w6 == "1") (e == "1") (g4 == "1") (g6 == "1")
-      (d, s!"{if r.ok then "ok" else "err"} rel4={b2s r.rel4} rel6={b2s r.rel6}")
+      -- a successful ADD consists of non-releasing events only (hypothesis of add_success_all_families)
+      let nr := if r.ok then b2s d.nonrel else "-"
+      (d, s!"{if r.ok then "ok" else "err"} rel4={b2s r.rel4} rel6={b2s r.rel6} nonrel={nr}")
     | _, _, _, _, _ => (d, "bad-op")
   | _ =>
     let (c, o) := driverStep C19.chk d.cas line
